@@ -21,6 +21,16 @@ ONE_DAY = [
 ]
 
 
+ZERO = [
+    ("app", "datetime.timedelta"),
+    ("app", "datetime.timedelta", c(0)),
+    ("app", "datetime.timedelta", ("kw", "days", c(0))),
+    ("app", "datetime.timedelta", ("kw", "seconds", c(0))),
+    ("app", "datetime.timedelta", ("kw", "minutes", c(0))),
+    ("app", "datetime.timedelta", ("kw", "hours", c(0))),
+]
+
+
 def parse_of(v: T.Term, param: T.Term) -> Optional[str]:
     """If v is datetime.strptime(param, <const fmt>) return fmt."""
     if isinstance(v, tuple) and v[:2] == ("app", "datetime.datetime.strptime") and len(v) == 4:
@@ -87,8 +97,15 @@ def run(prog: Program, rep: Report, tier: str) -> None:
         if fmts != {"%H:%M"}:
             rep.bad("R14.1", f"path {k}: formats", where, f"start/end are parsed with formats {sorted(fmts)}; both must be the same '%H:%M' so they lie on one calendar day", key="R14.1|formats")
             continue
-        guards = [lt_guard(g) for g in o.state.pc if lt_guard(g) is not None]
-        guards = [g for g in guards if {g[0], g[1]} == {S, E}]
+        allg = [lt_guard(g) for g in o.state.pc if lt_guard(g) is not None]
+        guards = [g for g in allg if {g[0], g[1]} == {S, E}]
+        # the same test on the difference: (E - S) < timedelta(0)  <=>  E < S
+        D = ("app", "sub", E, S)
+        for g in allg:
+            if g[0] == D and g[1] in ZERO:
+                guards.append((E, S, g[2]))
+            elif g[1] == D and g[0] in ZERO:
+                guards.append((S, E, g[2]))
         if inner == ("app", "mod", ("app", "sub", E, S)) + () or (inner[:2] == ("app", "mod") and inner[2] == ("app", "sub", E, S) and inner[3] in ONE_DAY):
             covered["mod"] = True
             rep.ok("R14.1", f"path {k}: modular form", where)
@@ -106,7 +123,13 @@ def run(prog: Program, rep: Report, tier: str) -> None:
             rep.check(ok, "R14.1", f"path {k}: (end + 1 day) - start when end < start", where,
                       f"(end + 1 day) - start is returned under guard {T.show(conj(o.state.pc))[:240]}; it must be exactly the case end < start (strict)", key="R14.1|lt-branch")
             continue
-        rep.bad("R14.1", f"path {k}: value", where, f"duration is computed as {T.show(inner)[:300]}; accepted forms: (E - S), (E + 1 day) - S, (E - S) % 1 day", key="R14.1|value")
+        if inner[:2] == ("app", "add") and len(inner) == 4 and ((inner[2] == D and inner[3] in ONE_DAY) or (inner[3] == D and inner[2] in ONE_DAY)):
+            ok = any(g == (E, S, True) for g in guards)
+            covered["lt"] = covered["lt"] or ok
+            rep.check(ok, "R14.1", f"path {k}: (end - start) + 1 day when end < start", where,
+                      f"(end - start) + 1 day is returned under guard {T.show(conj(o.state.pc))[:240]}; it must be exactly the case end < start (strict)", key="R14.1|lt-branch")
+            continue
+        rep.bad("R14.1", f"path {k}: value", where, f"duration is computed as {T.show(inner)[:300]}; accepted forms: (E - S), (E + 1 day) - S, (E - S) + 1 day, (E - S) % 1 day", key="R14.1|value")
     complete = covered["mod"] or (covered["lt"] and covered["ge"])
     rep.check(complete, "R14.1", "case split complete", where, f"the cases end<start / end>=start are not both covered correctly: {covered}", key="R14.1|complete")
 
